@@ -193,6 +193,44 @@ func TestVerifC12(t *testing.T) {
 				if in.km.IsLocked() == want.Unlocked {
 					return fail(clause, "lock state changed")
 				}
+				// passphrase behaviour is part of the state: the governing private passphrase still works
+				if len(want.Ks) > 0 {
+					pw := []byte(wPass[want.Priv])
+					if !want.Unlocked {
+						if err := in.km.Unlock(pw); err != nil {
+							return fail(clause, "the private passphrase of the expected state no longer unlocks: "+err.Error())
+						}
+						in.km.Lock()
+					} else {
+						for seed := range want.Ks {
+							if _, err := in.km.ExportKeystore(c.obs.idOf(seed), pw); err != nil {
+								return fail(clause, "the private passphrase of the expected state is no longer accepted: "+err.Error())
+							}
+						}
+						if cl, _, msg := wSignAll(c, in, want, false); msg != "" {
+							return fail(clause, cl+": "+msg)
+						}
+					}
+				}
+				// a follow-up keystore creation must land in a store that opens with the expected public passphrase
+				if want.Ks[3] == nil {
+					pi := want.Priv
+					if pi < 0 {
+						pi = wP0
+					}
+					id, err := in.km.NewKeystore([]byte(wPass[pi]), wSeed(3), "", in.km.params, wFast)
+					if err != nil {
+						return fail("unusable-after-error", "NewKeystore after the fault: "+err.Error())
+					}
+					c.obs.checkID(3, id)
+					w2 := *want
+					w2.Ks = map[int]*wKs{3: {}}
+					for s2, kk := range want.Ks {
+						w2.Ks[s2] = kk
+					}
+					w2.Priv = pi
+					want = &w2
+				}
 				// still usable: a follow-up address request behaves per reference
 				for seed, k := range want.Ks {
 					mas, err := in.km.NextAddresses(c.obs.idOf(seed), false, 1)
